@@ -246,6 +246,21 @@ static int run(const uint8_t *tp_, size_t len, struct vp_report *rep, unsigned f
                 if (render) vp_render(rep, "  split(%zu)+append\n", off);
                 reseg = true;
             }
+            if (ret == 0 && (sh & 0x08) && cur > 1) {
+                /* the tail is cut off (truncate releases the segments behind the cut) and a fresh copy of it appended again */
+                size_t off = 1 + tp_u8(&t) % (cur - 1);
+                size_t base = shrunk ? (size_t)k : 0;
+                struct ubuf *piece = ubuf_block_alloc(fm.block_mgr, (int)(cur - off));
+                uint8_t *wp; int ws = -1;
+                if (!piece || !ubase_check(ubuf_block_write(piece, 0, &ws, &wp)) || ws != (int)(cur - off)) { if (piece) ubuf_free(piece); ret = vp_internal(rep, "piece for the truncated tail"); }
+                else {
+                    memcpy(wp, src + base + off, cur - off);
+                    ubuf_block_unmap(piece, 0);
+                    if (!ubase_check(ubuf_block_truncate(ubuf, (int)off))) { ubuf_free(piece); ret = vp_internal(rep, "ubuf_block_truncate(%zu) of %zu octets", off, cur); }
+                    else if (!ubase_check(ubuf_block_append(ubuf, piece))) { ubuf_free(piece); ret = vp_internal(rep, "ubuf_block_append after truncate"); }
+                    else { if (render) vp_render(rep, "  truncate(%zu)+append of the same octets\n", off); reseg = true; }
+                }
+            }
             if (ret == 0 && (sh & 0x10) && cur > 0) {
                 /* an access that leaves the segment cache somewhere: at the end, or at or before the offset the reader will start from */
                 uint8_t ab = tp_u8(&t), tmp;
